@@ -24,7 +24,7 @@ RULE = ('family = one generated pipeline (single- and multi-input stages: map, s
         'successful fetches equals the number of completed function applications in '
         'the event log. Non-trivial = pipeline with at least 3 stages or a fault fired; '
         'distinct = distinct (pipeline, mode, fault plan, schedule seed).')
-PROBES = ['failed_fetch_counted', 'multi_input_stage_wrapped', 'behind_thread_prefetch',
+PROBES = ['original_iterated_after_wrapper', 'failed_fetch_counted', 'multi_input_stage_wrapped', 'behind_thread_prefetch',
           'items_stage_inside', 'partial_iteration', 'indexing_through_wrapper']
 BUDGET = {
     'quick': {'families': 900, 'wall_cap': 240, 'shrink_s': 12},
@@ -304,7 +304,23 @@ def run(case):
             wrapped = None
         if wrapped is not None:
             obsB, failB = observe(wrapped, case, ctxB, use_sim)
+            logB = list(ctxB.log)
             after = structure(orig)
+            # 2b. the original pipeline must behave as if an ordinary copy() of
+            # it had been used instead of the wrapper (hidden shared state, e.g.
+            # a per-epoch permutation buffer, shows in its next iteration)
+            same_after = None
+            if case['mode'] == 'iter' and any(
+                    s_['op'] in ('reshuffle', 'local_shuffle', 'shuffle') for s_ in desc['stages']):
+                full = dict(case, k=None, epochs=1)
+                obs_o, fo = observe(orig, full, ctxB, use_sim)
+                ctxD = W.set_ctx(W.Ctx(faults=case['faults']))
+                d_orig = W.build(desc)
+                d_copy = d_orig.copy()
+                observe(d_copy, case, ctxD, use_sim)
+                obs_d, fd = observe(d_orig, full, ctxD, use_sim)
+                same_after = (obs_o == obs_d, obs_o, obs_d)
+                probes['original_iterated_after_wrapper'] = 1
             # 3. reference counter
             ctxC = W.set_ctx(W.Ctx(faults=case['faults']))
             ref = RefProfile(W.build(desc))
@@ -323,6 +339,11 @@ def run(case):
                     'plain pipeline observed %s, wrapped in ProfilingDataset %s'
                     % (W.short(obsA, 200), W.short(obsB, 200)))
             else:
+                if same_after is not None and not same_after[0]:
+                    bad('original_pipeline_affected', 'original_pipeline_affected',
+                        'after the profiled copy was iterated the original pipeline yields %s; '
+                        'after an ordinary copy() was iterated instead it yields %s'
+                        % (W.short(same_after[1], 150), W.short(same_after[2], 150)))
                 if [(id(d), a, l) for d, a, l in before] != [(id(d), a, l) for d, a, l in after]:
                     i = next(j for j in range(len(before))
                              if (before[j][1], before[j][2]) != (after[j][1], after[j][2]))
@@ -353,8 +374,8 @@ def run(case):
                             probes['failed_fetch_counted'] = 1
                     # ground truth for map stages: successful fetches == completed calls
                     rets = {}
-                    start = next(e[0] for e in ctxB.log if e[2] == 'observe')
-                    for e in ctxB.log:
+                    start = next(e[0] for e in logB if e[2] == 'observe')
+                    for e in logB:
                         if e[2] == 'ret' and e[0] > start:
                             rets[e[3]] = rets.get(e[3], 0) + 1
                     for cls, hc, stage in nw:
